@@ -810,6 +810,9 @@ func ensureGlue() *glueClient {
 	if glue != nil {
 		return glue
 	}
+	if os.Getenv("VERIF_C11_NO_NETNS") != "" {
+		glueNoNetns = true // testing aid: share the host's loopback (and its port 5140) with the other checks
+	}
 	deadline := time.Now().Add(glueStartBudget)
 	backoff := 200 * time.Millisecond
 	var lastErr error
